@@ -25,7 +25,7 @@ PROPS = {
     },
     "C08": {
         "modules": ["Cose.Props.C08", "Cose.Props.C08Wire"],
-        "families": ["cbor", "map", "msg:wrongtype", "msg:gomap", "msg:C08", "claims", "api"],
+        "families": ["cbor", "map", "msg:wrongtype", "msg:gomap", "msg:C08", "claims", "api", "kdf", "dec"],
         "spec_ops": ["cbor.enc", "wire.wrongtype", "wire.badbucket", "wire.badpayload", "cbor.encdup", "wire.msgdup"],
         "n_quick": 8000, "n_thorough": 200000,
         "rule": "cbor.enc: random Go values (all integer kinds, nil/empty slices, nested CoseMaps of 0..320 int/text labels) encoded by the "
@@ -107,7 +107,7 @@ PROPS = {
         "assumptions": ["AEAD security assumed; uniqueness theorems (C12) reduce an accepted change to a tag forgery"],
     },
     "C04": {
-        "modules": ["Cose.Props.C04", "Cose.Props.Authd", "Cose.Props.History", "Cose.Props.KdfRoundtrip"], "families": ["msg:C04", "kdf", "api"], "spec_ops": ["msg.consume", "msg.produce", "kdf.enc"],
+        "modules": ["Cose.Props.C04", "Cose.Props.Authd", "Cose.Props.History", "Cose.Props.KdfRoundtrip"], "families": ["msg:C04", "kdf", "api"], "spec_ops": ["msg.consume", "msg.produce", "kdf.enc", "msg.huge"],
         "extras": [{"name": "race", "pkg": "./race", "build_flags": ["-race"], "args": ["-seed", "{seed}", "-n", "{n}", "-only", "Mac0/,Sign1/,Encrypt0/"],
                     "n_quick": 30, "n_thorough": 400, "timeout": 3000}],
         "n_quick": 400, "n_thorough": 40000,
